@@ -126,7 +126,7 @@ func callsNamed(info *types.Info, n ast.Node, name string) bool {
 	found := false
 	ast.Inspect(n, func(x ast.Node) bool {
 		if call, ok := x.(*ast.CallExpr); ok {
-			if f := core.CalleeObj(info, call); f != nil && f.Name() == name && f.Pkg() != nil && f.Pkg().Path() == core.ModPath {
+			if f := core.CalleeObj(info, call); f != nil && core.N(f) == name && f.Pkg() != nil && f.Pkg().Path() == core.ModPath {
 				found = true
 			}
 		}
@@ -548,7 +548,7 @@ func c15RawArgs(c *core.Ctx, r *core.Reporter) {
 	per := map[string]int{}
 	for _, fn := range c.LibFuncs() {
 		for _, w := range core.WritesIn(fn) {
-			if w.Owner == nil || w.Field == nil || !raw[w.Owner.Obj().Name()+"."+w.Field.Name()] {
+			if w.Owner == nil || w.Field == nil || !raw[core.N(w.Owner.Obj())+"."+core.N(w.Field)] {
 				continue
 			}
 			st, ok := w.In.(*ssa.Store)
@@ -558,7 +558,7 @@ func c15RawArgs(c *core.Ctx, r *core.Reporter) {
 			n++
 			name := fnKey(fn)
 			per[name]++
-			key := fmt.Sprintf("%s/%s.%s#%d", name, w.Owner.Obj().Name(), w.Field.Name(), per[name])
+			key := fmt.Sprintf("%s/%s.%s#%d", name, core.N(w.Owner.Obj()), core.N(w.Field), per[name])
 			coerced := ""
 			for _, k := range core.Classes(st.Val) {
 				if k == "field:executionContext.VariableValues" || k == "call:getVariableValues" {
@@ -566,7 +566,7 @@ func c15RawArgs(c *core.Ctx, r *core.Reporter) {
 				}
 			}
 			if coerced != "" {
-				r.Bad(key, st.Pos(), "%s stores coerced variable values (%s) into %s.%s, the raw variable input of an execution: the execution that reads it coerces them a second time, which fails or changes the value for every type whose internal form differs from its wire form (enums with explicit values, custom scalars)", name, coerced, w.Owner.Obj().Name(), w.Field.Name())
+				r.Bad(key, st.Pos(), "%s stores coerced variable values (%s) into %s.%s, the raw variable input of an execution: the execution that reads it coerces them a second time, which fails or changes the value for every type whose internal form differs from its wire form (enums with explicit values, custom scalars)", name, coerced, core.N(w.Owner.Obj()), core.N(w.Field))
 			} else {
 				r.OK(key, st.Pos(), "value comes from %s", core.Join(core.Classes(st.Val)))
 			}
